@@ -59,6 +59,10 @@ def gen_hashes(rng):
     return {a: HASHES[a] for a in algs}
 
 
+DISTURBANCES = ['new_version', 'new_version_dict', 'revoke', 'illegal_new_version', 'marking', 'deepcopy', 'serialize', 'store', 'bundle',
+                'remove_custom', 'equality']
+
+
 def gen_nested_hashes(rng):
     """A hashes dictionary for use INSIDE a contributing value (an extension, a dictionary): it contributes in full,
     the one-hash rule is for the observable's own toplevel `hashes` only."""
@@ -254,7 +258,7 @@ class C06(Profile):
     owns_registries = True
     tiers = {'quick': 4000, 'thorough': 200000}
     wall_cap = {'quick': 900, 'thorough': 5 * 3600}
-    probes = ['no_contributing_property_v4', 'hash_preference_applied', 'non_preferred_single_hash', 'non_preferred_several_hashes_first_wins', 'extension_with_float', 'custom_observable',
+    probes = ['disturbance_between_constructions', 'no_contributing_property_v4', 'hash_preference_applied', 'non_preferred_single_hash', 'non_preferred_several_hashes_first_wins', 'extension_with_float', 'custom_observable',
               'equal_contrib_different_noncontrib', 'near_miss_different_id', 'string_needing_escape', 'astral_or_bmp_boundary',
               'route_bundle_member', 'route_memory_store', 'uuid4_stream_differs', 'hash_names_respelled', 'falsy_contributing_value']
     rule = ('plans: 6-14 items (a 2.1 observable type incl. two registered custom observables, contributing and non-contributing values with '
@@ -327,6 +331,11 @@ class C06(Profile):
             for r in routes:
                 ops.append({'op': 'mint', 'item': ix, 'route': r, 'uuid_stream': irng.randrange(2), 'clock': irng.choice(['1970', '2038', 'stalled']),
                             'perm': irng.randrange(10 ** 6)})
+        # history: other library calls on objects of the same types happen between the constructions (versioning, revoking,
+        # marking, copying, storing, serialising ...); none of them may change what a later construction mints
+        for _ in range(irng.randrange(0, 1 + len(items))):
+            ops.append({'op': 'disturb', 'route': 'disturb', 'item': irng.randrange(len(items)), 'what': irng.choice(DISTURBANCES),
+                        'perm': irng.randrange(10 ** 6)})
         irng.shuffle(ops)
         return {'config': {}, 'items': items, 'ops': ops}
 
@@ -361,8 +370,53 @@ class C06(Profile):
             world.op_index = i
             world.stat('op:' + op['route'])
             ix = op['item'] % len(items)
+            if op.get('op') == 'disturb':
+                self.disturb(world, items[ix], op)
+                continue
             self.mint(world, items, ix, op, seen, canon_ids)
         world.group = sorted((ix, sorted(v)) for ix, v in seen.items() if expected_canonical(items[ix]) is not None)
+
+    def disturb(self, world, it, op):
+        """An operation on an observable of the item's type that is NOT a construction under test; outcomes are not judged here
+        (other properties own them), only what it leaves behind for the constructions that follow."""
+        s = self.s
+        t = it['type']
+        cls = s.registry.class_for_type(t, '2.1', 'observables')
+        props = json.loads(json.dumps(dict(it['c'], **it['nc'])))
+        world.clock.set(1900000000000000, mode='tick', step=1000)
+        what = op['what']
+        stamp = {'created': '2020-01-01T00:00:00.000Z', 'modified': '2020-01-01T00:00:00.000Z', 'revoked': False}
+        base = call(lambda: cls(allow_custom=True, **dict(props, **stamp)))      # a versionable observable (custom created/modified/revoked)
+        tag = 'base-failed'
+        if base.ok:
+            o = base.value
+            if what == 'new_version':
+                tag = call(s.versioning.new_version, o, x_note='n').tag
+            elif what == 'new_version_dict':
+                tag = call(s.versioning.new_version, json.loads(o.serialize()), x_note='n').tag
+            elif what == 'revoke':
+                tag = call(s.versioning.revoke, o).tag
+            elif what == 'illegal_new_version':
+                k = sorted(it['c'])[op['perm'] % len(it['c'])] if it['c'] else 'id'
+                tag = call(s.versioning.new_version, o, **{k: None}).tag
+            elif what == 'marking':
+                tag = call(s.markings.add_markings, o, C.TLP['red'], ['type']).tag
+            elif what == 'deepcopy':
+                tag = call(copy.deepcopy, o).tag
+            elif what == 'serialize':
+                tag = call(o.serialize, pretty=bool(op['perm'] % 2), sort_keys=bool(op['perm'] % 3)).tag
+            elif what == 'store':
+                st = s.MemoryStore()
+                tag = call(st.add, o).tag
+                call(st.query, [s.Filter('type', '=', t)])
+            elif what == 'bundle':
+                tag = call(lambda: s.v21.Bundle(objects=[o], allow_custom=True).serialize()).tag
+            elif what == 'remove_custom':
+                tag = call(s.versioning.remove_custom_stix, o).tag
+            elif what == 'equality':
+                tag = call(lambda: (o == o, hash(repr(o)), str(o))).tag
+        world.probe('disturbance_between_constructions')
+        world.log(op='disturb', what=what, type=t, outcome=tag)
 
     def mint(self, world, items, ix, op, seen, canon_ids):
         s = self.s
